@@ -5,7 +5,7 @@ from ..summary import Item, items, is_ok, bv
 from . import inherit_spec as IS
 
 ID = 'C06'
-ENGINE_B = {'template': 't_inherit', 'kinds': ['accessor_', 'dispatch_', 'layout_'], 'max_quick': 6, 'max_thorough': 32}
+ENGINE_B = {'template': 't_inherit', 'kinds': ['accessor_', 'dispatch_', 'layout_'], 'max_quick': 12, 'max_thorough': 64}
 EXPLANATION = ('Template t_inherit (bases A and B each with or without a vftable block, derived D with one or two #[base] fields and no / a '
                'prefix-repeating / a non-repeating vftable block, one of eight single-slot mutations of the repeated prefix — rename, '
                'parameter type, return type, receiver mutability, calling convention, dropped slot, extra parameter, swapped slots — and '
